@@ -4,3 +4,5 @@ pub mod ast;
 pub mod enumerate;
 pub mod extract;
 pub mod print;
+pub mod scope;
+pub mod scopegen;
